@@ -241,37 +241,41 @@ func (r *trieRunner) Do(op []string) string {
 
 // ---- C07: LRU cache --------------------------------------------------------------------------------
 
-type lruRunner struct {
-	c   *cache.LRUCache[int, int]
+type lruRunner[V any] struct {
+	c   *cache.LRUCache[int, V]
 	cap int
+	enc func(int) V
+	dec func(V) int
 	decoyHolder
 }
 
 func kvb(k, v int, ok bool) string { return itoa(k) + " " + itoa(v) + " " + b2s(ok) }
 
-func (r *lruRunner) Do(op []string) string {
+func (r *lruRunner[V]) kv(k int, v V, ok bool) string { return kvb(k, r.dec(v), ok) }
+
+func (r *lruRunner[V]) Do(op []string) string {
 	switch op[0] {
 	case "create":
-		c, err := cache.NewLRU[int, int](r.cap)
+		c, err := cache.NewLRU[int, V](r.cap)
 		r.c = c
 		return errs(err)
 	case "add":
-		k, v, ok := r.c.Add(atoi(op[1]), atoi(op[2]))
-		return kvb(k, v, ok)
+		k, v, ok := r.c.Add(atoi(op[1]), r.enc(atoi(op[2])))
+		return r.kv(k, v, ok)
 	case "get":
 		v, ok := r.c.Get(atoi(op[1]))
-		return itoa(v) + " " + b2s(ok)
+		return itoa(r.dec(v)) + " " + b2s(ok)
 	case "getoldest":
-		return kvb(r.c.GetOldest())
+		return r.kv(r.c.GetOldest())
 	case "getyoungest":
-		return kvb(r.c.GetYoungest())
+		return r.kv(r.c.GetYoungest())
 	case "remove":
 		v, ok := r.c.Remove(atoi(op[1]))
-		return itoa(v) + " " + b2s(ok)
+		return itoa(r.dec(v)) + " " + b2s(ok)
 	case "removeoldest":
-		return kvb(r.c.RemoveOldest())
+		return r.kv(r.c.RemoveOldest())
 	case "removeyoungest":
-		return kvb(r.c.RemoveYoungest())
+		return r.kv(r.c.RemoveYoungest())
 	case "flush":
 		r.c.Flush()
 		return "ok"
@@ -318,7 +322,23 @@ func init() {
 		return r
 	}
 	kinds["lru"] = func(p []string) Runner {
-		r := &lruRunner{cap: atoi(p[0])}
+		if len(p) > 1 && p[1] == "str" {
+			// values: 0 <-> "" (the zero value of the type), v <-> "s<v>"
+			return &lruRunner[string]{cap: atoi(p[0]),
+				enc: func(v int) string {
+					if v == 0 {
+						return ""
+					}
+					return "s" + itoa(v)
+				},
+				dec: func(s string) int {
+					if s == "" {
+						return 0
+					}
+					return atoi(s[1:])
+				}}
+		}
+		r := &lruRunner[int]{cap: atoi(p[0]), enc: func(v int) int { return v }, dec: func(v int) int { return v }}
 		r.d.mk = func() decoy {
 			c, err := cache.NewLRU[int, int](2 + atoi(p[0])%3)
 			if err != nil {
@@ -706,6 +726,14 @@ func genC07(g *Gen) {
 			}
 			ops = append(ops, "count")
 			g.Emit("lru", []string{itoa(capacity)}, ops)
+			// every third sequence also on an LRUCache[int, string] in which the second Add stores the zero value ""
+			if g.idx%3 == 0 {
+				zs := make([]string, len(ops))
+				for i, o := range ops {
+					zs[i] = strings.Replace(o, " 11", " 0", 1)
+				}
+				g.Emit("lru", []string{itoa(capacity), "str"}, zs)
+			}
 		})
 	}
 	for _, c := range []int{0, -1, -7} {
@@ -815,7 +843,7 @@ func genC07(g *Gen) {
 			k := itoa(r.Intn(keyRange))
 			switch {
 			case p < 40:
-				ops = append(ops, "add "+k+" "+itoa(r.Intn(1000)))
+				ops = append(ops, "add "+k+" "+itoa(r.Intn(1000)*r.Intn(4))) // every fourth value is 0 (the zero value)
 			case p < 60:
 				ops = append(ops, "get "+k)
 			case p < 70:
@@ -844,7 +872,11 @@ func genC07(g *Gen) {
 		if len(ops)%3 == 0 { // other live instances of the same type are operated in between
 			ops = withDecoys(ops, r, nil)
 		}
-		g.Emit("lru", []string{itoa(capacity)}, ops)
+		if len(ops)%2 == 0 {
+			g.Emit("lru", []string{itoa(capacity), "str"}, ops)
+		} else {
+			g.Emit("lru", []string{itoa(capacity)}, ops)
+		}
 	}
 }
 
